@@ -49,8 +49,13 @@ static void mode_c06() {
         // as in the main loop, the charge on the grid has been measured since the profiles changed (and is not one): the wake is
         // linear in the profiles whatever the phase space reports as its integral
         if (c % 2 == 1) { ps->integrate(); M.ev("fields_with_measured_charge_not_one"); }
-        auto imp = std::make_shared<Impedance>(s.Z, (frequency_t)1e12);
+        // one case in eight: the field is built on an all-zero impedance object, asked for the wake of the very same profiles, and the
+        // impedance is completed afterwards through the shared pointer (operator+=): the wake is the convolution with the impedance as it is now
+        bool late = (c % 8 == 6);
+        auto imp = late ? std::make_shared<Impedance>(std::vector<impedance_t>(s.N, impedance_t(0, 0)), (frequency_t)1e12)
+                        : std::make_shared<Impedance>(s.Z, (frequency_t)1e12);
         ElectricField ef(ps, imp, s.buckets, s.spacing, nullptr, s.frev, (meshaxis_t)s.revpart, s.Ib, s.E0, s.sE, s.dt);
+        if (late) { ef.wakePotential(); Impedance rest(s.Z, (frequency_t)1e12); (*imp) += rest; M.ev("impedance_completed_after_first_wake_request"); }
         // the wake must not depend on what the object was asked before: in half of the cases request the CSR
         // spectrum (and a wake of another profile) first
         bool history = r.chance(0.5) || sparse;
@@ -157,8 +162,16 @@ static void mode_c07() {
         std::vector<double> rho;
         int flavour = (int)r.range(0, 3);
         set_profiles(r, ps, s, rho, flavour);
-        auto imp = std::make_shared<Impedance>(s.Z, (frequency_t)1e12);
+        // one case in eight: the field is built on an all-zero impedance object which is completed afterwards through the shared pointer
+        // (operator+=, as the repository's own forward_wake test does): spectrum and wake must both see the impedance as it is when asked
+        bool late = (c % 8 == 5);
+        auto imp = late ? std::make_shared<Impedance>(std::vector<impedance_t>(s.N, impedance_t(0, 0)), (frequency_t)1e12)
+                        : std::make_shared<Impedance>(s.Z, (frequency_t)1e12);
         ElectricField ef(ps, imp, s.buckets, s.spacing, nullptr, s.frev, (meshaxis_t)s.revpart, s.Ib, s.E0, s.sE, s.dt);
+        if (late) {
+            if (r.chance(0.5)) { ef.updateCSR(0); ef.wakePotential(); }          // ... also after the field has already been used
+            Impedance rest(s.Z, (frequency_t)1e12); (*imp) += rest; M.ev("impedance_completed_after_field_construction");
+        }
         bool wake_first = (c / 3) % 2 == 1;        // the same object is asked for the wake before / after the spectrum
         if (wake_first) { ef.wakePotential(); M.ev("wake_requested_before_spectrum"); }
         // the same object may have been asked for the spectrum behind a beam-line cutoff before: "cutoff disabled" must mean disabled
